@@ -959,11 +959,11 @@ func endsInReturn(b *ast.BlockStmt) bool {
 // ---------------------------------------------------------------------------
 // entry points used by the property files
 
-func c01R7(l *core.Ledger)     { checkStubs(l, map[string]string{"R7": "C01-R7"}) }
-func c03F6(l *core.Ledger)     { checkNameBinding(l, "C03-F6") }
-func c04H3(l *core.Ledger)     { checkHandlers(l, map[string]string{"H3": "C04-H3"}) }
-func c05M5gen(l *core.Ledger)  { checkHandlers(l, map[string]string{"B4": "C05-M5"}) }
-func c06P4(l *core.Ledger)     { checkHandlers(l, map[string]string{"P4": "C06-P4"}) }
-func c06P6(l *core.Ledger)     { checkStubs(l, map[string]string{"P6": "C06-P6", "B3": "C06-P6"}) }
-func c11K8(l *core.Ledger)     { checkAccessors(l, "C11-K8") }
-func c15S1(l *core.Ledger)     { checkHandlers(l, map[string]string{"B4": "C15-S1b", "S1": "C15-S1"}) }
+func c01R7(l *core.Ledger)    { checkStubs(l, map[string]string{"R7": "C01-R7"}) }
+func c03F6(l *core.Ledger)    { checkNameBinding(l, "C03-F6") }
+func c04H3(l *core.Ledger)    { checkHandlers(l, map[string]string{"H3": "C04-H3"}) }
+func c05M5gen(l *core.Ledger) { checkHandlers(l, map[string]string{"B4": "C05-M5"}) }
+func c06P4(l *core.Ledger)    { checkHandlers(l, map[string]string{"P4": "C06-P4"}) }
+func c06P6(l *core.Ledger)    { checkStubs(l, map[string]string{"P6": "C06-P6", "B3": "C06-P6"}) }
+func c11K8(l *core.Ledger)    { checkAccessors(l, "C11-K8") }
+func c15S1(l *core.Ledger)    { checkHandlers(l, map[string]string{"B4": "C15-S1b", "S1": "C15-S1"}) }
